@@ -11,6 +11,7 @@ import (
 	"io"
 	"strings"
 	"testing"
+	"time"
 
 	"seehuhn.de/go/membudget"
 	"seehuhn.de/go/pdf/internal/limits"
@@ -790,6 +791,29 @@ func TestB2C08Hostile(t *testing.T) {
 			bodies = append(bodies, out)
 		}
 	}
+	// DCT: progressive JPEGs of 1024x1024 pixels whose 2000 scans consist of end-of-band runs
+	// only (14 bytes per scan, every scan walks over all 16384 blocks): first-pass AC scans
+	// and refinement scans
+	for _, ahal := range []byte{0x00, 0x10} {
+		var b bytes.Buffer
+		w := func(p ...byte) { b.Write(p) }
+		dim := 1024
+		w(0xFF, 0xD8, 0xFF, 0xDB, 0x00, 0x43, 0x00)
+		for range 64 {
+			w(0x01)
+		}
+		w(0xFF, 0xC2, 0x00, 0x0B, 0x08, byte(dim>>8), byte(dim), byte(dim>>8), byte(dim), 0x01, 0x01, 0x11, 0x00)
+		w(0xFF, 0xC4, 0x00, 0x15, 0x10)
+		counts := [16]byte{}
+		counts[1] = 2
+		w(counts[:]...)
+		w(0xE0, 0x00)
+		for range 2000 {
+			w(0xFF, 0xDA, 0x00, 0x08, 0x01, 0x01, 0x00, 0x01, 0x3F, ahal, 0x00, 0x00, 0x00, 0x00)
+		}
+		w(0xFF, 0xD9)
+		bodies = append(bodies, b.Bytes())
+	}
 	bodies = append(bodies, nil, []byte{0}, bytes.Repeat([]byte{0xff}, 300), bytes.Repeat([]byte{0x80, 0x00}, 200), []byte("~>"), []byte(">"), bytes.Repeat([]byte{0x00, 0x10, 0x01}, 100))
 	for _, name := range names {
 		for _, d := range dicts {
@@ -801,14 +825,18 @@ func TestB2C08Hostile(t *testing.T) {
 				continue
 			}
 			for bi, body := range bodies {
-				if !b2Thorough() && bi%2 == 1 {
+				if !b2Thorough() && bi%2 == 1 && len(body) < 4000 {
 					continue
 				}
 				cases++
+				started := time.Now()
 				func() {
 					defer func() {
 						if r := recover(); r != nil {
 							t.Errorf("B2-FAIL panic %s %s body#%d: %v", name, AsString(d), bi, r)
+						}
+						if el := time.Since(started); el > 3*time.Second {
+							t.Errorf("B2-FAIL slow %s %s body#%d (%d bytes): %v", name, AsString(d), bi, len(body), el)
 						}
 					}()
 					stm := &Stream{Dict: Dict{"Filter": name}, data: bytes.NewReader(body), length: int64(len(body))}
